@@ -18,11 +18,16 @@ type Assign struct {
 	Node *model.Node `json:"node,omitempty"`
 	// Rename binds the variable to another variable name (a fill-in value that is itself a name).
 	Rename string `json:"rename,omitempty"`
+	// Alien, when set, binds the variable to a Go value that no item takes (nil, a struct, a slice, ...): refused everywhere.
+	Alien string `json:"alien,omitempty"`
 }
 
 // goValue converts a binding to the Go value FillVariables expects.
 func (a Assign) goValue(variant int) interface{} {
 	switch {
+	case a.Alien != "":
+		v, _ := alienValue(a.Alien)
+		return v
 	case a.Rename != "":
 		return a.Rename
 	case a.Elem != nil:
@@ -176,6 +181,8 @@ func substModel(n *model.Node, bind map[string]Assign) (*model.Node, error) {
 			switch {
 			case !ok:
 				out.Children = append(out.Children, c)
+			case a.Alien != "":
+				return nil, errRefused("list variable bound to a value of a Go type that no item takes")
 			case a.Rename != "":
 				out.Children = append(out.Children, model.Child{Var: a.Rename})
 			case a.Node != nil:
@@ -195,7 +202,7 @@ func substModel(n *model.Node, bind map[string]Assign) (*model.Node, error) {
 			out.AVar = &av
 			return out, nil
 		}
-		if a.Str == nil {
+		if a.Str == nil || a.Alien != "" {
 			return nil, errRefused("ASCII variable bound to a non-string value")
 		}
 		if len(*a.Str) < n.AVar.Min || (n.AVar.Max != -1 && len(*a.Str) > n.AVar.Max) {
@@ -218,6 +225,8 @@ func substModel(n *model.Node, bind map[string]Assign) (*model.Node, error) {
 			switch {
 			case !ok:
 				out.Elems[i] = e
+			case a.Alien != "":
+				return nil, errRefused("element variable bound to a value of a Go type that no item takes")
 			case a.Rename != "":
 				out.Elems[i] = model.Elem{Var: a.Rename}
 			case a.Elem != nil && a.Kind == n.Kind:
